@@ -28,7 +28,7 @@ import (
 	v1 "github.com/fatedier/frp/pkg/config/v1"
 	"github.com/fatedier/frp/pkg/msg"
 	plugin "github.com/fatedier/frp/pkg/plugin/server"
-	"github.com/fatedier/frp/pkg/util/log"
+	"verifharness/hx"
 )
 
 func init() { drivers["plugins"] = runPlugins }
@@ -615,7 +615,7 @@ const c15Tail = "Definition M := Eval vm_compute in mismatches check_case cases.
 	"Definition NUNREACHABLE := Eval vm_compute in (count_if has_blind cases : Z).\nPrint NUNREACHABLE.\n"
 
 func runPlugins(cfg *runCfg) error {
-	log.InitLogger("/dev/null", "error", 0, true)
+	hx.Quiet()
 	g := newGen(cfg.Seed)
 	cf := &caseFile{Imports: c15Imports, Typ: "case", Tail: c15Tail}
 	rec := &recorder{}
